@@ -473,6 +473,35 @@ static void delete_chunks_on_line_having_chunk(Chunk *chunk)
 
 
 /**
+ * Tells if the rest of two lines, starting at pc1 and pc2, consists of the same tokens.
+ */
+static bool same_tokens_to_end_of_line(Chunk *pc1, Chunk *pc2, bool tcare)
+{
+   while (  pc1->IsNotNullChunk()
+         && pc2->IsNotNullChunk()
+         && !pc1->IsCommentOrNewline()
+         && !pc2->IsCommentOrNewline())
+   {
+      auto const &s1 = chunk_sort_str(pc1);
+      auto const &s2 = chunk_sort_str(pc2);
+
+      if (  s1.size() != s2.size()
+         || UncText::compare(s1, s2, s1.size(), tcare) != 0)
+      {
+         return(false);
+      }
+      pc1 = pc1->GetNext();
+      pc2 = pc2->GetNext();
+   }
+   // a trailing comment does not make a difference
+   return(  (  pc1->IsNullChunk()
+            || pc1->IsCommentOrNewline())
+         && (  pc2->IsNullChunk()
+            || pc2->IsCommentOrNewline()));
+}
+
+
+/**
  * Dedupe import/include directives.
  */
 static void dedupe_imports(Chunk **chunks, size_t num_chunks)
@@ -482,16 +511,8 @@ static void dedupe_imports(Chunk **chunks, size_t num_chunks)
 
    for (size_t idx = 1; idx < num_chunks; idx++)
    {
-      auto const &s1 = chunk_sort_str(chunks[idx - 1]);
-      auto const &s2 = chunk_sort_str(chunks[idx]);
-
-      if (s1.size() != s2.size())
-      {
-         continue;
-      }
-      int ret_val = UncText::compare(s1, s2, std::min(s1.size(), s2.size()), options::mod_sort_case_sensitive());
-
-      if (ret_val == 0)
+      // 'using a.y;' is not a duplicate of 'using a.z;': compare the whole directive
+      if (same_tokens_to_end_of_line(chunks[idx - 1], chunks[idx], options::mod_sort_case_sensitive()))
       {
          delete_chunks_on_line_having_chunk(chunks[idx - 1]);
       }
